@@ -273,6 +273,30 @@ func runC08(c *Ctx) {
 	c.entryWays()
 	c.omoList("C08")
 	c.omoObj("C08")
+	for _, side := range []int{0, 1} {
+		for _, op := range []string{"sort", "reverse", "sort-nested"} {
+			m.Case("clone-then-reorder")
+			inner := m.NewList(gvInt(9), gvInt(7), gvInt(8))
+			l := m.NewList(gvInt(3), gvInt(1), gvInt(2))
+			holder := m.NewList(m.RefGV(l), m.RefGV(inner), gvStr("x"))
+			cl := m.Clone(l)
+			hc := m.Clone(holder)
+			t, ht := l, holder
+			if side == 1 {
+				t, ht = cl, hc
+			}
+			switch op {
+			case "sort":
+				m.Sort(t)
+			case "reverse":
+				m.Reverse(t)
+			case "sort-nested":
+				m.Sort(m.tokVal(m.L(ht).Get(1)))
+				m.Sort(m.tokVal(m.L(ht).Get(0)))
+			}
+			c.St.Eval(fmt.Sprint("clone-reorder:", side, op), true)
+		}
+	}
 	c.derivedCorners("C08")
 	c.growShrink()
 	c.sharedBoxes()
@@ -930,6 +954,7 @@ func runC13(c *Ctx) {
 	c.omoObj("C13")
 	c.derivedCorners("C13")
 	c.nativeAfterDerivations()
+	c.longLists("C13")
 	opts := &TreeOpts{MaxDepth: 5, MaxWidth: 5}
 	for i := 0; i < c.N(500, 8000); i++ {
 		m.Case("native")
